@@ -7,11 +7,21 @@ Sub-checks (DESIGN.md "### C01"):
   1 confinement   probes for every forbidden ast.expr class of the running interpreter x strict
                   holes of allowed contexts (depth <=2 quick / <=3 thorough, innermost level of depth 3
                   reduced to one representative per node class+field) x 5 pathways x 4 tool sets;
-                  name universe x 7 call shapes with an audit hook, canaries and a table of
-                  dangerous builtins; string-level pathway tricks.
-  2 totality      every input above plus hostile strings, silent=True and silent=False (stdout is a
-                  strict UTF-8 text stream); crash-prone inputs run in a forked child; ROS latch
-                  histories explored to fixpoint/depth.
+                  name universe x 7 call shapes x 9 placements (root, list/tuple elements, arguments of
+                  an allow-listed function, positional/nested/keyword tool arguments) with an audit hook,
+                  canaries, a table of dangerous builtins and a position-independence oracle (a name the
+                  engine refuses at the root must not be evaluated inside a display or call argument);
+                  Dict/Set displays are literal-only: judged like forbidden nodes on the computing
+                  pathways, "don't care" where the string is literal data (transform; auto + pure literal);
+                  string-level pathway tricks.
+  2 totality      every input above plus hostile strings, a positional sweep (2/3/4-byte characters and lone
+                  surrogates at every offset 0..71 (quick) / 0..135 (thorough) and around the length limit,
+                  ASCII and same-character filler, three total lengths, five expression shapes) and
+                  expressions whose successful value is awkward to render (ints around the int->str digit
+                  limit, non-finite floats, long strings, deep/wide containers); every public entry point
+                  that takes an expression string (metabolize on every pathway, digest_glucose); silent=True
+                  and silent=False (stdout is a strict UTF-8 text stream); crash-prone inputs run in a
+                  forked child; ROS latch histories explored to fixpoint/depth.
   3 resource      magnitude alphabet in forked children (RLIMIT_AS 4 GiB, RLIMIT_CPU = deadline):
                   a child killed by the kernel for exceeding the CPU deadline never returned.
 
@@ -24,7 +34,8 @@ Deviations from DESIGN.md: operator classes outside the documented table (BitOr,
 (coverage.operators_accepted), not judged - the statement does not forbid them; keyword values of allow-listed
 calls are a skippable hole (this evaluator ignores keywords, C02's business) judged by a value witness; the
 deadline is CPU time enforced by the kernel (RLIMIT_CPU) so load cannot flip a verdict; the ROS history search
-is depth-bounded (float accumulation has no fixpoint); sys.setprofile tracing is not used.
+is depth-bounded (float accumulation has no fixpoint); sys.setprofile tracing is not used; Dict/Set displays
+(DESIGN: "don't care" everywhere) are "don't care" only as literal data, see LITERAL_ONLY_NODES.
 """
 from __future__ import annotations
 
@@ -454,6 +465,55 @@ DANGEROUS = {
 SHAPES = [None, (), (1,), ("os",), (1, "real"), ("1+1",), ([1, 2],)]  # None = bare name
 
 
+class _NoValue:
+    def __repr__(self):
+        return "<value not observable>"
+
+
+NOVAL = _NoValue()
+# Placements of a name-universe probe: the root plus strict holes of the allowed display / call forms (list and
+# tuple elements, arguments of an allow-listed function, positional / nested / keyword arguments of a registered
+# tool).  Second item: how the hole's value is recovered from the result (or from what the tool body received),
+# None = not recoverable (success still shows the hole was evaluated).
+NAME_HOLES = [
+    (H, lambda v, argv: v),
+    ("[§]", lambda v, argv: v[0]),
+    ("(1, §)", lambda v, argv: v[1]),
+    ("[1, (§,)]", lambda v, argv: v[1][0]),
+    ("len([§])", None),
+    ("bool(§)", None),
+    ("rec(§)", lambda v, argv: argv[-1][0][0]),
+    ("rec(1, [§])", lambda v, argv: argv[-1][0][1][0]),
+    ("rec(k=(§,))", lambda v, argv: argv[-1][1]["k"][0]),
+]
+NAME_HOLE_FN = dict(NAME_HOLES)
+
+
+def place_name(template, expr):
+    return expr if template == H else template.replace(H, expr)
+
+
+def hole_value(template, res, value):
+    """-> (hole_ok, hole value | NOVAL): was the probe in the hole evaluated successfully, and to what."""
+    tool_ctx = template.startswith("rec(")
+    if tool_ctx:
+        if not TOOL_CALLS:
+            return False, NOVAL  # the tool body did not run: the argument was refused (or the call was)
+        try:
+            return True, NAME_HOLE_FN[template](value, TOOL_ARGV)
+        except Exception:  # noqa: BLE001 - the argument did not arrive: the hole was skipped, nothing witnessed
+            return False, NOVAL
+    if res != "ok":
+        return False, NOVAL
+    fn = NAME_HOLE_FN[template]
+    if fn is None:
+        return True, NOVAL
+    try:
+        return True, fn(value, TOOL_ARGV)
+    except Exception:  # noqa: BLE001 - result does not have the display's shape (e.g. bool() on the logic pathway)
+        return True, NOVAL
+
+
 def name_universe():
     names = set(dir(builtins)) | set(dir(math)) | set(dir(operator)) | set(keyword.kwlist) | set(keyword.softkwlist)
     names |= set(dir(mito_mod)) | set(dir(Mitochondria)) | set(vars(Mitochondria(silent=True)))
@@ -559,6 +619,8 @@ def judge_name(name, canon, shape, res, value, documented):
             return (f"dangerous-builtin-callable:{canon}", f"{name}{_argsrc(shape)} succeeded with {short(value)}")
         for k, want in sig.items():
             if k == _argsrc(shape):
+                if value is NOVAL:
+                    return ("unvetted", canon + ":value-not-observable")
                 if value is want or (type(value) is type(want) and value == want):
                     return (f"dangerous-builtin-callable:{canon}",
                             f"{name}{_argsrc(shape)} returned {short(value)}, the value Python's {canon} gives")
@@ -570,6 +632,26 @@ def judge_name(name, canon, shape, res, value, documented):
     if canon not in documented:
         return ("unvetted", canon)
     return None
+
+
+def judge_nested(canon, template, expr, pw, hole_ok, root_res, toolnames):
+    """Position-independence of the allow-list: a name (call shape) that the engine itself refuses at the root of
+    BOTH walker pathways and that the documentation does not list either is outside the allow-list on every
+    account; if the same text is evaluated successfully inside a strict hole on a computing pathway, a name
+    outside the allow-list was looked up / called there.  (auto with a pure-literal string, and the transform
+    pathway, are literal parsing: not judged.)"""
+    if template == H or not hole_ok:
+        return None
+    if pw == "transform" or (pw == "auto" and pure_literal(expr)):
+        return None
+    if root_res.get("math") != "fail" or root_res.get("logic") != "fail":
+        return None
+    if canon in DOCUMENTED_PURE or canon in toolnames or canon in ("True", "False", "None"):
+        return None
+    return (f"refused-name-evaluated-nested:{canon}:{pw}",
+            f"metabolize({expr!r}, pathway={pw}) evaluated its {template!r} hole successfully although the same "
+            f"text is refused at the root of the math and logic pathways and {canon!r} is not a documented "
+            f"allow-listed name: name lookup outside the allow-list (expected a failure result)")
 
 
 def names_worker(job):
@@ -590,43 +672,61 @@ def names_worker(job):
         v = viol.setdefault(key, {"what": what, "n": 0, "case": case})
         v["n"] += 1
 
+    toolnames = {ts: set(TOOLSETS[ts]) for ts in engines}
     for name in names:
         canon = fancy.get(name, name)
         for shape in SHAPES:
-            expr = name if shape is None else name + _argsrc(shape)
+            probe = name if shape is None else name + _argsrc(shape)
             for ts, eng in engines.items():
-                for pw in PW_ORDER:
-                    mods_before = len(sys.modules)
-                    del _AUDIT_LOG[:]
-                    _AUDIT_ON[0] = True
-                    try:
-                        res, detail, value = call(eng, expr, pw)
-                    finally:
-                        _AUDIT_ON[0] = False
-                    n_eval += 1
-                    case = {"sub": "names", "name": name, "canon": canon, "shape": shape, "pw": pw, "ts": ts}
-                    outcomes.add((res, detail if res != "ok" else type(value).__name__, shape is None))
-                    if res in ("raise", "badtype"):
-                        add(f"raises:{detail}:silent", f"metabolize({expr!r}, pathway={pw}) raised {detail}", case)
-                    if _AUDIT_LOG:
-                        ev = sorted(set(_AUDIT_LOG))
-                        add(f"audit-event:{ev[0].split('.')[0]}:{canon}",
-                            f"metabolize({expr!r}, pathway={pw}) triggered audit events {ev[:6]}", case)
-                    if len(sys.modules) != mods_before:
-                        add(f"module-imported:{canon}", f"metabolize({expr!r}, pathway={pw}) grew sys.modules", case)
-                    ch = canary.changed()
-                    if ch:
-                        add(f"canary-changed:{ch[0]}:{canon}", f"metabolize({expr!r}, pathway={pw}) changed {ch}", case)
-                        canary = Canary(list(engines.values()))
-                    if TOOL_CALLS and not (pw in ("auto", "tool") and name == "rec" and shape is not None):
-                        add(f"tool-ran-unaddressed:{pw}", f"tool body ran for {expr!r} on pathway {pw}", case)
-                    j = judge_name(name, canon, shape, res, value, DOCUMENTED_PURE)
-                    if j and j[0] == "unvetted":
-                        unvetted.add(j[1])
-                    elif j:
-                        add(j[0], j[1] + f" (pathway {pw}; expected a failure result)", case)
-                    if res == "ok":
-                        accepted.add(canon)
+                root_res = {}
+                for template, _ in NAME_HOLES:
+                    expr = place_name(template, probe)
+                    at_root = template == H
+                    addressed = template.startswith("rec(") or (name == "rec" and shape is not None)
+                    for pw in PW_ORDER:
+                        mods_before = len(sys.modules)
+                        del _AUDIT_LOG[:]
+                        _AUDIT_ON[0] = True
+                        try:
+                            res, detail, value = call(eng, expr, pw)
+                        finally:
+                            _AUDIT_ON[0] = False
+                        n_eval += 1
+                        case = {"sub": "names", "name": name, "canon": canon, "shape": shape, "pw": pw, "ts": ts,
+                                "hole": template}
+                        outcomes.add((res, detail if res != "ok" else type(value).__name__, shape is None, at_root))
+                        if res in ("raise", "badtype"):
+                            add(f"raises:{detail}:silent", f"metabolize({expr!r}, pathway={pw}) raised {detail}", case)
+                        if _AUDIT_LOG:
+                            ev = sorted(set(_AUDIT_LOG))
+                            add(f"audit-event:{ev[0].split('.')[0]}:{canon}",
+                                f"metabolize({expr!r}, pathway={pw}) triggered audit events {ev[:6]}", case)
+                        if len(sys.modules) != mods_before:
+                            add(f"module-imported:{canon}", f"metabolize({expr!r}, pathway={pw}) grew sys.modules", case)
+                        ch = canary.changed()
+                        if ch:
+                            add(f"canary-changed:{ch[0]}:{canon}", f"metabolize({expr!r}, pathway={pw}) changed {ch}", case)
+                            canary = Canary(list(engines.values()))
+                        if TOOL_CALLS and not (pw in ("auto", "tool") and addressed):
+                            add(f"tool-ran-unaddressed:{pw}", f"tool body ran for {expr!r} on pathway {pw}", case)
+                        if at_root:
+                            root_res[pw] = res
+                            hole_ok, hv = res == "ok", value
+                        else:
+                            hole_ok, hv = hole_value(template, res, value)
+                        j = judge_name(name, canon, shape, "ok" if hole_ok else "fail", hv, DOCUMENTED_PURE)
+                        if j and j[0] == "unvetted":
+                            if at_root:
+                                unvetted.add(j[1])
+                        elif j:
+                            add(j[0], j[1] + (f" (pathway {pw}; expected a failure result)" if at_root else
+                                              f" inside {expr!r} (pathway {pw}; expected a failure result)"), case)
+                        jn = judge_nested(canon, template, expr, pw, hole_ok, root_res, toolnames[ts])
+                        if jn:
+                            outcomes.add(("refused-at-root-evaluated-nested", pw))
+                            add(jn[0], jn[1], case)
+                        if hole_ok:
+                            accepted.add(canon)
     return {"evals": n_eval, "outcomes": outcomes, "viol": viol, "unvetted": unvetted, "accepted": accepted}
 
 
@@ -634,9 +734,12 @@ def replay_names(case):
     install_audit()
     eng = mk_engine(case["ts"])
     name, canon, pw = case["name"], case["canon"], case["pw"]
+    template = case.get("hole", H)
     shape = case["shape"]
     shape = None if shape is None else tuple(list(a) if isinstance(a, tuple) else a for a in shape)
-    expr = name if shape is None else name + _argsrc(shape)
+    probe = name if shape is None else name + _argsrc(shape)
+    expr = place_name(template, probe)
+    root_res = {p: call(eng, probe, p)[0] for p in ("math", "logic")}
     canary = Canary([eng])
     del _AUDIT_LOG[:]
     _AUDIT_ON[0] = True
@@ -653,9 +756,16 @@ def replay_names(case):
     ch = canary.changed()
     if ch:
         out.append((f"canary-changed:{ch[0]}:{canon}", f"changed {ch}"))
-    j = judge_name(name, canon, shape, res, value, DOCUMENTED_PURE)
+    addressed = template.startswith("rec(") or (name == "rec" and shape is not None)
+    if TOOL_CALLS and not (pw in ("auto", "tool") and addressed):
+        out.append((f"tool-ran-unaddressed:{pw}", f"tool body ran for {expr!r} on pathway {pw}"))
+    hole_ok, hv = (res == "ok", value) if template == H else hole_value(template, res, value)
+    j = judge_name(name, canon, shape, "ok" if hole_ok else "fail", hv, DOCUMENTED_PURE)
     if j and j[0] != "unvetted":
         out.append(j)
+    jn = judge_nested(canon, template, expr, pw, hole_ok, root_res, set(TOOLSETS[case["ts"]]))
+    if jn:
+        out.append(jn)
     return out
 
 
@@ -868,8 +978,67 @@ def hostile_strings():
     return out, deep
 
 
+WIDE_CHARS = [("2-byte", "\u00e9"), ("3-byte", "\u20ac"), ("4-byte", "\U0001f600"), ("lone-hi", SUR), ("lone-lo", SUR2)]
+# expression shapes a swept character is embedded in: (head, closer).  Valid call of an allow-listed function
+# (succeeds on math), a bare token run (fails everywhere), a tool call (auto-routed to the tool pathway),
+# JSON / literal data (succeeds on transform), a comparison (auto-routed to logic)
+SWEEP_SHAPES = [("len('", "')"), ("", ""), ("rec('", "')"), ('["', '"]'), ("'' < '", "'")]
+
+
+def positional_sweep(tier):
+    """Every wide / unencodable character class at every offset 0..N of the expression, so that it sits before,
+    astride and after any fixed-width preview / truncation point (echo, error context, error message) whether
+    that point is counted in characters or in encoded bytes: ASCII filler puts the character at byte offset ==
+    character offset; filler made of the character itself puts multiples of its encoded width (and of its
+    escape's width) at every boundary.  Three total lengths per offset (character last, a short tail, a tail long
+    enough to push the total beyond the next boundary)."""
+    n_off = 72 if tier == "quick" else 136
+    out = []
+    for cname, ch in WIDE_CHARS:
+        for head, closer in SWEEP_SHAPES:
+            for fill in ("a", ch):
+                for k in range(n_off - len(head)):
+                    for tail in (0, 3, 64):
+                        out.append(("sweep-" + cname, head + fill * k + ch + "a" * tail + closer))
+    # the same around the length guard (counted in characters by the statement's "length limit")
+    L = mito_mod.MAX_EXPRESSION_LENGTH if isinstance(getattr(mito_mod, "MAX_EXPRESSION_LENGTH", None), int) else 10000
+    for cname, ch in WIDE_CHARS:
+        for total in (L - 1, L, L + 1):
+            for back in range(0, 6):
+                body = total - len("len('')")
+                if body - 1 - back >= 0:
+                    out.append(("sweep-limit-" + cname, "len('" + "a" * (body - 1 - back) + ch + "a" * back + "')"))
+    return list(dict.fromkeys(out))
+
+
+def awkward_results():
+    """Expressions whose evaluation SUCCEEDS with a value that is awkward to carry or render: integers around the
+    interpreter's int->str digit limit, non-finite floats, long strings, deep / wide containers, odd constants."""
+    lim = sys.get_int_max_str_digits() if hasattr(sys, "get_int_max_str_digits") else 4300
+    lim = lim or 4300
+    out = []
+    for d in sorted({lim - 1, lim, lim + 1, lim + 700, 2 * lim, 9999}):
+        one = f"10**{d - 1}"  # exactly d decimal digits
+        out += [one, "-" + one, f"{one} - 1", f"[{one}]", f"(1, {one})", f"[[{one}], 0]", f"abs(-{one})", f"max({one}, 1)",
+                f"{one} > 0"]
+    out += ["factorial(1500)", "factorial(1600)", "2**14284", "2**14285", "2**100000", "int('9' * 4000)",
+            "inf", "-inf", "inf - inf", "[inf, inf - inf]", "(inf,)", "1e308 * 10", "float('nan')", "float('-inf')",
+            "1e308", "5e-324", "-0.0", "1j * 1j", "1e400j",
+            "'a' * 9000", "'ab' * 1000000", "['a' * 5000] * 3", "'\\' * 5000", "'\n' * 100", "'\x00' * 10", "b'\xff' * 3",
+            "'\u20ac' * 5000", "'\U0001f600' * 60",
+            "[[0] * 1000] * 1000", "(0,) * 100000", "[[]] * 100000", "[1, 'a', (2.5, None), [True, ...]]",
+            "None", "...", "True", "()", "[]", "''", "b''"]
+    for d in (50, 150, 300):
+        out += ["[" * d + "1" + "]" * d, "(" * d + "1" + ",)" * d, "[(" * (d // 2) + "0" + ",)]" * (d // 2)]
+    return [("render", e) for e in dict.fromkeys(out)]
+
+
+ENTRY_POINTS = ("metabolize", "digest_glucose")  # every public method of the engine that takes an expression string
+
+
 def totality_worker(items):
-    """items: [(tag, expr)] -> every (silent, tool set in none/rec, pathway) combination on fresh-enough engines."""
+    """items: [(tag, expr)] -> every entry point x (silent, tool set in none/rec) x pathway (where the entry point
+    has a pathway argument) on fresh-enough engines."""
     n = 0
     outcomes = set()
     viol = {}
@@ -888,6 +1057,17 @@ def totality_worker(items):
                                     f"{detail} to the caller (stdout is a strict UTF-8 stream); expected a MetabolicResult",
                             "n": 0, "case": {"sub": "totality", "expr": expr, "tag": tag}})
                         v["n"] += 1
+                res, detail, value = call_legacy(eng, expr)
+                n += 1
+                outcomes.add(("legacy", res, detail, silent))
+                if res in ("raise", "badtype"):
+                    key = f"raises:digest_glucose:{detail}"
+                    v = viol.setdefault(key, {
+                        "what": f"Mitochondria(silent={silent}).digest_glucose({short(expr, 60)}) "
+                                f"{'raised ' + detail + ' to the caller' if res == 'raise' else 'returned a ' + detail}; "
+                                f"expected a str (the rendered value or its 'Metabolic Failure: ...' text)",
+                        "n": 0, "case": {"sub": "totality", "expr": expr, "tag": tag}})
+                    v["n"] += 1
     return {"evals": n, "outcomes": sorted(outcomes, key=repr), "viol": viol}
 
 
@@ -1266,10 +1446,11 @@ def run(ctx):
     # ---- 1b name universe
     names, fancy = name_universe()
     allnames = names + sorted(fancy)
-    chunks = common.chunked(common.rotate(allnames, ctx.seed), max(1, min(nproc, 8)))
+    n_sc += selfcheck_contexts([(t, "strict", None) for t, _ in NAME_HOLES if t != H])
+    chunks = common.chunked(common.rotate(allnames, ctx.seed), max(1, min(nproc, 16)))
     res = common.pmap(names_worker, [(c, fancy) for c in chunks])
     total += _merge(ctx, "names", res)
-    distinct += len(allnames) * len(SHAPES)
+    distinct += len(allnames) * len(SHAPES) * len(NAME_HOLES)
     unvetted = sorted(set().union(*[r["unvetted"] for r in res]) - {"rec"})
     accepted = sorted(set().union(*[r["accepted"] for r in res]))
     ctx.sample({"sub": "names", "expr": "getattr(1, 'real')"})
@@ -1292,14 +1473,16 @@ def run(ctx):
     hostile, deep = hostile_strings()
     light = [("probe", fill(t, p)) for _, p in PROBES for t, _, _ in contexts(1)] + [("name", n) for n in allnames]
     light = list(dict.fromkeys(light))
-    items = hostile + light
+    sweep = positional_sweep(ctx.tier)
+    awkward = awkward_results()
+    items = hostile + sweep + awkward + light
     res = common.pmap(totality_worker, common.chunked(common.rotate(items, ctx.seed), max(1, nproc)))
     for r in res:
         r["outcomes"] = [tuple(o) for o in r["outcomes"]]
     total += _merge(ctx, "total", res)
     r = run_totality_children(common.rotate(deep, ctx.seed), max(1, min(nproc, 16)))
     total += _merge(ctx, "total-child", [r])
-    distinct += len(hostile) + len(deep)
+    distinct += len(hostile) + len(deep) + len(sweep) + len(awkward)
     ctx.sample({"sub": "totality", "expr": hostile[0][1], "silent": False})
     from mc import explore
     RosModel().selfcheck_clone()
@@ -1361,12 +1544,18 @@ def run(ctx):
         tool_sets={k: list(v) for k, v in TOOLSETS.items()},
         name_universe=len(allnames),
         call_shapes=len(SHAPES),
+        name_placements=[t for t, _ in NAME_HOLES],
+        literal_only_classes=sorted(LITERAL_ONLY_NODES),
         names_accepted=accepted,
         unvetted_names=unvetted,
         operator_classes_found=classes,
         operators_accepted=ops_accepted,
         operators_unsampled=ops_unsampled,
         hostile_strings=len(hostile) + len(deep),
+        positional_sweep_strings=len(sweep),
+        positional_sweep_chars=[c for c, _ in WIDE_CHARS],
+        awkward_result_strings=len(awkward),
+        entry_points=list(ENTRY_POINTS),
         ros_fixpoint=ros["fixpoint"],
         ros_depth_completed=ros["depth_completed"],
         resource_cases=len(cases),
@@ -1388,6 +1577,11 @@ def run(ctx):
         "tool bodies are the user's code and out of scope; only whether/when they are invoked is judged",
         "stdout for silent=False is a strict UTF-8 text stream (PYTHONIOENCODING=utf-8 / UTF-8 locale)",
         "only str inputs; recursion limit at its default (1000)",
+        "Dict/Set displays (and a call such as set() of a name the engine itself refuses at the root) count as "
+        "evaluated-outside-the-allow-list on the math, logic and tool pathways and on auto unless the whole string "
+        "is pure JSON / Python literal data; on the data-transformation pathway literal parsing is the documented "
+        "purpose and they are not judged",
+        "digest_glucose's contract is taken to be: returns a str for every input (rendered value or failure text)",
     ]
 
 
